@@ -8,6 +8,7 @@ import (
 	"runtime"
 	"runtime/debug"
 	"strings"
+	"sync/atomic"
 	"syscall"
 	"time"
 
@@ -275,4 +276,50 @@ func LeakPhase(tmp string, tab *Table, n int, salt int) (*LeakResult, *Diff, err
 func isTimeout(err error) bool {
 	ne, ok := err.(net.Error)
 	return ok && ne.Timeout()
+}
+
+// CloseRaceProbe looks for today's acceptLoop / Close race (SharedPort.tla, Bug "LateAccept"):
+// a daemon connects, sends a truncated header, and Close is called a few microseconds later
+// (the delay is swept).  It counts the listeners whose handler logged AFTER Close had returned
+// -- what Close's documentation rules out ("waits for in-flight handler goroutines").
+func CloseRaceProbe(tmp string, n int) (late int, example string, err error) {
+	dir, err := os.MkdirTemp(tmp, "cr")
+	if err != nil {
+		return 0, "", err
+	}
+	defer os.RemoveAll(dir)
+	p := filepath.Join(dir, "ep")
+	for i := 0; i < n; i++ {
+		var closed atomic.Bool
+		var after atomic.Int32
+		var line atomic.Value
+		l, err := sharedport.Listen(p, sharedport.Options{HandshakeTimeout: 20 * time.Millisecond, Logf: func(format string, a ...any) {
+			if closed.Load() {
+				after.Add(1)
+				line.Store(fmt.Sprintf(format, a...))
+			}
+		}})
+		if err != nil {
+			return late, example, err
+		}
+		uc, err := net.DialUnix("unix", nil, &net.UnixAddr{Name: p, Net: "unix"})
+		if err != nil {
+			l.Close()
+			return late, example, err
+		}
+		_, _ = uc.Write([]byte{1, 0, 0})
+		for t0 := time.Now(); time.Since(t0) < time.Duration(i%100)*2*time.Microsecond; {
+		}
+		_ = l.Close()
+		closed.Store(true)
+		time.Sleep(30 * time.Millisecond) // a late handler gives up at the handshake deadline
+		_ = uc.Close()
+		if after.Load() > 0 {
+			late++
+			if example == "" {
+				example = fmt.Sprintf("iteration %d (Close %d us after the daemon's write): the handler logged %q after Close had returned", i, (i%100)*2, line.Load())
+			}
+		}
+	}
+	return late, example, nil
 }
